@@ -40,6 +40,15 @@ def pOp : P Op := do
   | "gcs" => pure .getCellSize
   | "gcsr" => do let p ← nat; let w ← pWin; pure (.getCellSizeR p w)
   | "gcr" => pure .getCellRatio
+  | "use" => do
+    let k ← word; let n ← nat
+    match k with
+    | "cp" => pure (.useCell .colsPx n)
+    | "lp" => pure (.useCell .linesPx n)
+    | "pc" => pure (.useCell .pxCols n)
+    | "pl" => pure (.useCell .pxLines n)
+    | "rs" => pure (.useCell .renderSize n)
+    | _ => failure
   | "gco" => do
     let k ← word
     match k with
@@ -127,6 +136,18 @@ def handler : Handler := fun op args =>
       let rv := match s.rval with
         | none => "none" | some f => if f == n then "new" else "old"
       pure ("ok " ++ fmtBool s.flag ++ " " ++ cache ++ " " ++ rv ++ " " ++ toString s.pc)) args
+  | "handover" => Wire.run (do
+      -- first Process.start() with a lookup in flight, then a toggle: in the model the hand-over is atomic
+      -- w.r.t. lookups (`startProc` leaves the state alone), so after the effective toggle the cache is
+      -- cleared (`toggles_invalidate`) whatever the lookup stored before it
+      let t ← word
+      let op ← (if t == "swon" then pure Op.swapOn else if t == "qon" then pure Op.qOn else failure)
+      let s0 : St := St.init { cols := 100, rows := 40, xpx := 1000, ypx := 800, cw := 10, ch := 20, aw := 1000, ah := 800 }
+      let s0 : St := if t == "qon" then { s0 with queries := false } else s0
+      let T : Term := { ioctlFail := false, ansCell := true, ansArea := false, termux := false, kittyGfx := false,
+                        xtv := none, envProg := none, envVer := none, fg := none, bg := none }
+      let s := exec T s0 [.getCellSize, .startProc, .resize { cols := 100, rows := 40, xpx := 1200, ypx := 1000, cw := 12, ch := 25, aw := 1200, ah := 1000 }, op]
+      pure (if s.cc == CC.cleared then "ok fresh" else "ok stale")) args
   | "divbits" => Wire.run (do let a ← nat; let b ← nat; pure ("ok " ++ hex16 (divBits a b))) args
   | _ => none
 
